@@ -282,6 +282,20 @@ func (c *Ctx) checkHashInjective(h *ssa.Function, tname string, hashed ssa.Value
 		l := p.Leaves(pt, ana.PVOpt{})
 		fields := strings.Join(l.Fields(), ",")
 		ex := p.Expr(pt, 0)
+		// narrowing steps on the way to the bytes: distinct field values collapse
+		for _, op := range l.OpList() {
+			switch op {
+			case "Int.Uint64", "Int.Int64", "Int.Int", "Dec.TruncateInt64", "Dec.RoundInt64", "Int.Sign", "Int.BitLen", "Int.Cmp":
+				for _, f := range l.Fields() {
+					r.Bad("C14.injective", "narrowed:"+f, p.Pos(h.Pos()), f+" passes through "+op+" before it is hashed: values that agree in the part that is kept (e.g. modulo 2^64) get the same claim identifier")
+				}
+			}
+		}
+		if cv := narrowingConvert(pt); cv != "" {
+			for _, f := range l.Fields() {
+				r.Bad("C14.injective", "narrowed:"+f, p.Pos(h.Pos()), f+" is converted "+cv+" before it is hashed: values that differ only in the dropped bits get the same claim identifier")
+			}
+		}
 		switch {
 		case strings.HasPrefix(ex, "Uint64ToBigEndian("):
 			// fixed 8
@@ -294,6 +308,11 @@ func (c *Ctx) checkHashInjective(h *ssa.Function, tname string, hashed ssa.Value
 		case strings.Contains(ex, "Int.BigInt(") && strings.HasPrefix(ex, "Int.Bytes("):
 			nVar++
 			varNames = append(varNames, fields)
+			// big.Int.Bytes is the magnitude: +x and -x encode alike, so the event's Validate has to refuse negatives
+			for _, f := range l.Fields() {
+				okNeg := c.validateRejectsNegative(h, f)
+				r.Check(okNeg, "C14.injective", "sign:"+f, p.Pos(h.Pos()), f+" is hashed by magnitude and Validate refuses a negative value", f+" enters the claim hash by magnitude only (big.Int.Bytes) and the event's Validate does not refuse a negative value: +x and -x are admissible reports with one claim identifier")
+			}
 		case strings.HasPrefix(ex, "ExternalSigners.Hash("):
 			// fixed 32
 		case strings.HasPrefix(ex, "AccAddress.Bytes(") || strings.HasPrefix(ex, "ValAddress.Bytes("):
@@ -309,4 +328,105 @@ func (c *Ctx) checkHashInjective(h *ssa.Function, tname string, hashed ssa.Value
 	} else {
 		r.Ok("C14.injective", "undelimited:"+tname, p.Pos(h.Pos()), sprintf("%d parts, at most one of variable length", len(parts)))
 	}
+}
+
+
+// narrowingConvert finds, on the value path of a hashed part, a numeric conversion to a narrower type.
+func narrowingConvert(v ssa.Value) string {
+	seen := map[ssa.Value]bool{}
+	var out string
+	var walk func(v ssa.Value, d int)
+	walk = func(v ssa.Value, d int) {
+		if v == nil || d > 8 || seen[v] || out != "" {
+			return
+		}
+		seen[v] = true
+		switch x := v.(type) {
+		case *ssa.Convert:
+			from, ok1 := x.X.Type().Underlying().(*types.Basic)
+			to, ok2 := x.Type().Underlying().(*types.Basic)
+			if ok1 && ok2 && from.Info()&types.IsInteger != 0 && to.Info()&types.IsInteger != 0 && intBits(to) < intBits(from) {
+				out = "from " + from.Name() + " to " + to.Name()
+				return
+			}
+			walk(x.X, d+1)
+		case *ssa.Call:
+			for _, a := range x.Call.Args {
+				walk(a, d+1)
+			}
+		case *ssa.ChangeType:
+			walk(x.X, d+1)
+		case *ssa.Slice:
+			walk(x.X, d+1)
+		case *ssa.MakeInterface:
+			walk(x.X, d+1)
+		}
+	}
+	walk(v, 0)
+	return out
+}
+
+func intBits(b *types.Basic) int {
+	switch b.Kind() {
+	case types.Int8, types.Uint8:
+		return 8
+	case types.Int16, types.Uint16:
+		return 16
+	case types.Int32, types.Uint32:
+		return 32
+	}
+	return 64
+}
+
+// validateRejectsNegative: the Validate method of the event type returns an error under <field>.IsNegative().
+func (c *Ctx) validateRejectsNegative(hash *ssa.Function, field string) bool {
+	p := c.P
+	tn := ana.NamedOf(hash.Signature.Recv().Type())
+	if tn == nil {
+		return false
+	}
+	var val *ssa.Function
+	for _, f := range p.ImplementersOf("mhub2/types", "ExternalEvent", "Validate") {
+		if n := ana.NamedOf(f.Signature.Recv().Type()); n != nil && n.Obj() == tn.Obj() {
+			val = f
+		}
+	}
+	if val == nil {
+		return false
+	}
+	neg := ana.AtomCallBool(func(call *ssa.Call, d ana.CalleeDesc) bool {
+		if d.Recv != "Int" || d.Name != "IsNegative" || len(call.Call.Args) != 1 {
+			return false
+		}
+		return p.Leaves(call.Call.Args[0], ana.PVOpt{}).HasField(field)
+	}, true)
+	nonNeg := ana.AtomCallBool(func(call *ssa.Call, d ana.CalleeDesc) bool {
+		if d.Recv != "Int" || (d.Name != "IsPositive") || len(call.Call.Args) != 1 {
+			return false
+		}
+		return p.Leaves(call.Call.Args[0], ana.PVOpt{}).HasField(field)
+	}, true)
+	// every success return is cut off from the entry by "not negative"
+	ok := true
+	n := 0
+	ana.Instrs(val, func(in ssa.Instruction) {
+		ret, isRet := in.(*ssa.Return)
+		if !isRet || in.Parent() != val || len(ret.Results) != 1 {
+			return
+		}
+		if !ana.IsNilConst(ret.Results[0]) {
+			return
+		}
+		n++
+		notNeg := func(cd ana.Cond) (bool, bool) {
+			if pol, m := neg(cd); m {
+				return !pol, true
+			}
+			return nonNeg(cd)
+		}
+		if !ana.Guarded(ret, notNeg) {
+			ok = false
+		}
+	})
+	return ok && n > 0
 }
